@@ -1,7 +1,7 @@
 #!/bin/bash
 # usage: round2.sh <Cnn> : confirm and check the four round-2 variants of one property
 P=$1; R=/tmp/seedout2/$P
-export GOFLAGS=-mod=mod GOPROXY=off GOSUMDB=off GOTOOLCHAIN=local GOWORK=off
+export GOFLAGS="-mod=mod -trimpath" GOPROXY=off GOSUMDB=off GOTOOLCHAIN=local GOWORK=off
 cd /verif
 for v in A B; do
   [ -f $R/$v/patch.diff ] || { echo "$P-$v: MISSING"; continue; }
